@@ -50,45 +50,50 @@ func hxDecodeLeaf(e *hxEnt) ([]byte, bool) {
 	return nil, false
 }
 
+// hxC01Tag prefixes the labels of the tree assertions (e.g. "second render: ").
+var hxC01Tag string
+
+func hxA(c bool, label string) { svAssert(c, hxC01Tag+label) }
+
 // hxCheckLeaf compares one parsed leaf with what the caller supplied.
 func hxCheckLeaf(e *hxEnt, s hxLeafSpec) {
-	svAssert(e.mtype == s.mtype, "leaf-media-type")
-	svAssert(e.cte == hxCTEName(s.enc), "leaf-transfer-encoding")
+	hxA(e.mtype == s.mtype, "leaf-media-type")
+	hxA(e.cte == hxCTEName(s.enc), "leaf-transfer-encoding")
 	switch s.kind {
 	case 0:
 		cs, ok := hxParam(e.params, "charset")
-		svAssert(ok, "leaf-charset-missing")
-		svAssert(hxLower(cs) == "utf-8", "leaf-charset")
-		svAssert(e.disp == "", "part-has-disposition")
+		hxA(ok, "leaf-charset-missing")
+		hxA(hxLower(cs) == "utf-8", "leaf-charset")
+		hxA(e.disp == "", "part-has-disposition")
 	case 1, 2:
 		want := "inline"
 		if s.kind == 2 {
 			want = "attachment"
 		}
-		svAssert(e.disp == want, "leaf-disposition")
+		hxA(e.disp == want, "leaf-disposition")
 		fn, ok := hxParam(e.dparams, "filename")
-		svAssert(ok, "leaf-filename-missing")
+		hxA(ok, "leaf-filename-missing")
 		dfn, ok2 := hxDecodeWords(fn)
-		svAssert(ok2, "leaf-filename-undecodable")
-		svAssert(string(dfn) == s.name, "leaf-filename")
+		hxA(ok2, "leaf-filename-undecodable")
+		hxA(string(dfn) == s.name, "leaf-filename")
 		nm, ok3 := hxParam(e.params, "name")
-		svAssert(ok3, "leaf-name-missing")
+		hxA(ok3, "leaf-name-missing")
 		dnm, ok4 := hxDecodeWords(nm)
-		svAssert(ok4, "leaf-name-undecodable")
-		svAssert(string(dnm) == s.name, "leaf-name")
+		hxA(ok4, "leaf-name-undecodable")
+		hxA(string(dnm) == s.name, "leaf-name")
 		if s.kind == 1 {
 			_, n := hxGet(e.hdrs, "content-id")
-			svAssert(n == 1, "embed-content-id")
+			hxA(n == 1, "embed-content-id")
 		}
 	}
 	dec, ok := hxDecodeLeaf(e)
-	svAssert(ok, "leaf-undecodable")
+	hxA(ok, "leaf-undecodable")
 	want := s.content
 	if s.enc == EncodingQP {
 		want = hxCanonText(want)
 	}
-	svAssert(len(dec) == len(want), "leaf-content-length")
-	svAssert(hxEqBytes(dec, want), "leaf-content")
+	hxA(len(dec) == len(want), "leaf-content-length")
+	hxA(hxEqBytes(dec, want), "leaf-content")
 }
 
 // hxCheckNesting checks mixed > related > alternative nesting of the tree
@@ -127,8 +132,8 @@ func hxCheckNesting(root *hxEnt, p, e, a int) {
 		last := 0
 		for _, c := range l.chain {
 			r := rank(c.mtype)
-			svAssert(r != 0, "unexpected-container-type")
-			svAssert(r > last, "container-order")
+			hxA(r != 0, "unexpected-container-type")
+			hxA(r > last, "container-order")
 			last = r
 		}
 	}
@@ -145,18 +150,18 @@ func hxCheckNesting(root *hxEnt, p, e, a int) {
 	if p > 1 {
 		for i := 0; i < p; i++ {
 			pp := parent(i)
-			svAssert(pp != nil && pp.mtype == "multipart/alternative", "alternatives-not-in-alternative")
-			svAssert(pp == parent(0), "alternatives-split")
+			hxA(pp != nil && pp.mtype == "multipart/alternative", "alternatives-not-in-alternative")
+			hxA(pp == parent(0), "alternatives-split")
 		}
 		if pp := parent(0); pp != nil {
-			svAssert(len(pp.kids) == p, "alternative-holds-foreign-parts")
+			hxA(len(pp.kids) == p, "alternative-holds-foreign-parts")
 		}
 	}
 	if e > 0 && (p > 0 || e > 1) {
 		for i := p; i < p+e; i++ {
 			pp := parent(i)
-			svAssert(pp != nil && pp.mtype == "multipart/related", "embed-not-in-related")
-			svAssert(pp == parent(p), "embeds-split")
+			hxA(pp != nil && pp.mtype == "multipart/related", "embed-not-in-related")
+			hxA(pp == parent(p), "embeds-split")
 		}
 		// body parts must live inside the same related container
 		if rel := parent(p); rel != nil {
@@ -165,15 +170,15 @@ func hxCheckNesting(root *hxEnt, p, e, a int) {
 				for _, c := range leaves[i].chain {
 					in = in || c == rel
 				}
-				svAssert(in, "parts-outside-related")
+				hxA(in, "parts-outside-related")
 			}
 		}
 	}
 	if a > 0 && p+e+a > 1 {
 		for i := p + e; i < p+e+a; i++ {
 			pp := parent(i)
-			svAssert(pp != nil && pp.mtype == "multipart/mixed", "attachment-not-in-mixed")
-			svAssert(pp == root, "mixed-not-at-top")
+			hxA(pp != nil && pp.mtype == "multipart/mixed", "attachment-not-in-mixed")
+			hxA(pp == root, "mixed-not-at-top")
 		}
 	}
 }
@@ -236,12 +241,12 @@ func hxRenderParse(m *Msg) *hxEnt {
 }
 
 func hxCheckTree(root *hxEnt, specs []hxLeafSpec) {
-	svAssert(root.bad == "", "malformed:"+root.bad)
+	hxA(root.bad == "", "malformed:"+root.bad)
 	if root.bad != "" {
 		return
 	}
 	leaves := hxLeaves(root, nil)
-	svAssert(len(leaves) == len(specs), "leaf-count")
+	hxA(len(leaves) == len(specs), "leaf-count")
 	if len(leaves) != len(specs) {
 		return
 	}
@@ -316,7 +321,14 @@ func HarnessC01Shape() {
 	if a > 0 && p > 0 {
 		svReach("mixed")
 	}
+	hxC01Tag = ""
 	hxCheckTree(root, specs)
+	// the same Msg rendered again (boundaries and file headers are cached on
+	// the first render) must satisfy the same structure
+	hxC01Tag = "second render: "
+	root2 := hxRenderParse(m)
+	hxCheckTree(root2, specs)
+	hxC01Tag = ""
 }
 
 var hxShapeSets = [][]int{{0, 2}, {0, 1, 2, 3}, {0}, {2}}
